@@ -463,6 +463,55 @@ def build_missing(form, n, p, pos):
     return pd.DataFrame(cols)
 
 
+def finite_dtype_cells(tier):
+    """Finite data held in pandas' nullable dtypes (Float64, Int64: what read_csv(dtype_backend="numpy_nullable") or convert_dtypes()
+    produce) or in an object column: nothing is missing, so every detector must run - with every built-in scorer - and detect what it
+    detects on the same numbers as float64."""
+    scorers = {"PELT": ("cost", [None, {"cls": "L2Cost"}, {"cls": "GaussianVarCost"}, {"cls": "GaussianCovCost"}]),
+               "MovingWindow": ("change_score", [None, {"cls": "GaussianVarCost"}, {"cls": "GaussianCovCost"}]),
+               "SeededBinarySegmentation": ("change_score", [None, {"cls": "GaussianCovCost"}]),
+               "CircularBinarySegmentation": ("anomaly_score", [None, {"cls": "GaussianCovCost"}]),
+               "CAPA": ("collective_saving", [None, {"cls": "GaussianCovCost", "param": {"tuple": [0.0, 1.0]}}, {"cls": "GaussianVarCost", "param": {"tuple": [0.0, 1.0]}}]),
+               "MVCAPA": ("collective_saving", [None, {"cls": "GaussianVarCost", "param": {"tuple": [0.0, 1.0]}}])}
+    for det, (key, specs) in scorers.items():
+        for spec in specs:
+            for form in ("Float64", "Int64", "object"):
+                for p in (1, 2):
+                    yield {"detector": det, "key": key, "scorer": spec, "form": form, "p": p}
+
+
+def check_finite_dtype(case):
+    import pandas as pd
+
+    det_name, p = case["detector"], case["p"]
+    n = 40
+    rng = np.random.Generator(np.random.PCG64(4100 + p))
+    base = rng.standard_normal((n, p)) * 40.0   # (spread wide enough that no stretch of 6 rows is collinear after rounding)
+    base[n // 2:] += 90.0
+    base = np.round(base) if case["form"] == "Int64" else np.round(base, 3)
+    params = {case["key"]: case["scorer"]}
+    size = {"bandwidth": 6} if det_name == "MovingWindow" else {"min_segment_length": 6}
+    if det_name == "CircularBinarySegmentation":
+        size["max_interval_length"] = 24
+    params.update(size)
+    if case["form"] == "object":
+        df = pd.DataFrame({f"c{j}": np.array(list(base[:, j]), dtype=object) for j in range(p)})
+    else:
+        df = pd.DataFrame({f"c{j}": pd.array([int(v) for v in base[:, j]] if case["form"] == "Int64" else list(base[:, j]), dtype=case["form"])
+                           for j in range(p)})
+    from checks.c11 import sparse_signature
+    with sut(f"{det_name} on finite float64 data"):
+        want = sparse_signature(K.build(K.detector_spec(det_name, params)).fit(base).predict(base))
+    with sut(f"{det_name} on the same finite numbers held as {case['form']}"):
+        det = K.build(K.detector_spec(det_name, params)).fit(df)
+        got = sparse_signature(det.predict(df))
+        det.transform(df)
+    if got != want:
+        raise Violation("finite data in a nullable / object dtype give other detections than the same numbers as float64", detector=det_name,
+                        params=params, dtype=case["form"], float64=want, other=got)
+    return {"nontrivial": bool(want["events"]), "classes": [f"det={det_name}", f"dtype={case['form']}", f"scorer={(case['scorer'] or {}).get('cls', 'default')}"]}
+
+
 def check_missing(case):
     det_name = case["detector"]
     n, p = 24, case["p"]
@@ -605,6 +654,11 @@ FACETS = [
                 "given as a numpy scalar (int64, int32, float64, float32, int_, uint8) x two data kinds: must run and give the "
                 "same detections as the equal Python numbers; every cell is non-trivial"),
           shards_quick=4, shards_thorough=4),
+    Facet(name="finite_nullable_dtypes", kind="enumerate", enumerate=finite_dtype_cells, check=check_finite_dtype, exhaustive=True,
+          rule=("six detectors x their built-in scorers (default, L2, univariate and multivariate Gaussian) x finite data held as pandas Float64 / Int64 "
+                "(nullable) or object columns x p in {1,2}: must run to completion (predict and transform) and give the detections of the same numbers "
+                "as float64; non-trivial = >= 1 detection"),
+          shards_quick=8, shards_thorough=8),
     Facet(name="missing_value_forms", kind="enumerate", enumerate=missing_cells, check=check_missing, exhaustive=True,
           timeout_is_violation=True, time_limit=20.0,
           rule=("seven detectors x eight forms of a missing value (NaN in float64 / float32 frames, arrays and Series, pd.NA in "
